@@ -347,7 +347,10 @@ def body_circle(case, ctx):
         r.label("circle:radius_multiple_of_neither")
     else:
         r.label("circle:radius_multiple_of_one_cell")
-    k = circle_kernel(cx, cy, arg)
+    try:
+        k = circle_kernel(cx, cy, arg)
+    except ValueError as e:
+        return r.fail("circle.valid_radius_rejected(as=%s)" % a, "circle_kernel(%r, %r, %r) raised ValueError(%s)" % (cx, cy, arg, str(e)[:60]))
     if not _check_kernel_values(r, "circle", k):
         return r
     hh, hw = (k.shape[0] - 1) // 2, (k.shape[1] - 1) // 2
@@ -375,7 +378,7 @@ def body_circle(case, ctx):
 
 
 def body_annulus(case, ctx):
-    from xrspatial.convolution import annulus_kernel
+    from xrspatial.convolution import _get_distance, annulus_kernel
     cx, cy, so, si = case["cx"], case["cy"], case["outer"], case["inner"]
     r = R()
     ao, ai = _radius_arg(so), _radius_arg(si)
@@ -404,6 +407,12 @@ def body_annulus(case, ctx):
         if fit_amb:
             r.label("annulus:fit_ambiguous")
             return r
+        for nm, sp in (("outer", so), ("inner", si)):      # which radius is it that the parser refuses?
+            try:
+                _get_distance(str(_radius_arg(sp)))
+            except ValueError as e:
+                return r.fail("annulus.valid_radius_rejected(as=%s)" % sp.get("as", "str"),
+                              "annulus_kernel(%r, %r, %r, %r): %s radius raised ValueError(%s)" % (cx, cy, ao, ai, nm, str(e)[:60]))
         raise
     if not _check_kernel_values(r, "annulus", k):
         return r
